@@ -10,12 +10,14 @@ from framework import LEAN, pmap, write_if_changed
 
 ID = 'C05'
 LEAN_MODULES = ['Pfst.Props.C05']
-LEAN_DEPS = ['Pfst.ParseWrap', 'Pfst.ParseWrapLemmas', 'Pfst.SeqFix']
+LEAN_DEPS = ['Pfst.ParseWrap', 'Pfst.ParseWrapLemmas', 'Pfst.SeqFix', 'Pfst.TrailSep', 'Pfst.TrailSepLemmas']
 THEOREMS = [
     'Pfst.C05.wrap_positions', 'Pfst.C05.embed_text', 'Pfst.C05.rebase_embed', 'Pfst.C05.rebase_embed_at',
     'Pfst.C05.astloc_whole', 'Pfst.C05.no_escape', 'Pfst.C05.verify_sound', 'Pfst.C05.escape_detected',
     'Pfst.C05.mode_total', 'Pfst.C05.modes_match_spec', 'Pfst.C05.class_modes_match_spec', 'Pfst.C05.wrappers_sound',
     'Pfst.C05.wrappers_observed', 'Pfst.C05.b2c_c2b_boundary', 'Pfst.C05.fixSeq_trailing', 'Pfst.C05.fixSeq_no_trailing',
+    'Pfst.C05.trailing_sep_spec', 'Pfst.C05.trailing_comma_spec', 'Pfst.C05.trailing_semicolon_spec',
+    'Pfst.C05.trailing_sep_same_language', 'Pfst.C05.trailing_sep_blanks',
 ]
 RULE = ('(1) whole programs (snippets, generated, layout-mutated, commented, multi-byte, stdlib chunks) through exec/stmts/strict/'
         'all/eval/single and FST(src): source unchanged, tree == ast.parse with positions; (2) for every extended mode, fragments '
@@ -39,8 +41,10 @@ TRUSTED = [
     'harness rebasing rule, _verify_no_close_delimiters (line assembly + depth count), delimiter matching; extracted every run: '
     'mode table, class-mode table, wrapper families and their line deltas (Pfst/Gen/Modes.lean)',
     '_fix_undelimited_seq_parsed_delimited is modelled in Pfst/SeqFix.lean on top of the next_frag/prev_frag model of Pfst/Scan.lean (C06) and '
-    'tied by replaying recorded real calls; not modelled: CPython itself; '
-    '_has_trailing_comma/_semicolon regexes, parse__match_cases indentation undo (uses FST._get_indentable_lns), the dangling '
+    'tied by replaying recorded real calls; _has_trailing_comma/_semicolon (repaired linear patterns) are modelled in Pfst/TrailSep.lean '
+    '(deterministic scan, proved equal to the pattern language and to the language of the pre-repair pattern) and tied by '
+    'correspondence; not modelled: CPython itself; '
+    'parse__match_cases indentation undo (uses FST._get_indentable_lns), the dangling '
     'BoolOp/Compare internal parsers, parse_all category guessing, type_comments/feature_version parse_params — all exercised by '
     'the sweep with CPython as judge only',
     'excluded input classes: fragments inside f-strings; Store/Del-context expressions as expr fragments; block fragments that '
@@ -568,7 +572,7 @@ def generated_malformed(rng, n_random):
         out.append(('unbalanced:' + F.shape(s), s))
     # wrong category / too many / trailing garbage (balanced)
     for s in ['a:b', 'a:b:c', 'a\nb', 'a;b', 'a; b', 'a;', 'a b', 'a,', 'a, b', 'a=1, b=2', 'a=1,', '*a', '**a', '*not a', '*a or b',
-              'x for x in y', 'x for x in y, z', 'for x in y', 'for x in y if z', 'if a', 'if a if b', 'if a else b', 'a if b',
+              'x for x in y', 'x for x in y, z', '*b for b in c', '(a) for a in b', '+ a for a in b', '.x for x in y', 'or a for a in b', 'for x in y', 'for x in y if z', 'if a', 'if a if b', 'if a else b', 'a if b',
               'a as b', 'a as b, c', 'a as b,', 'a.b as c', '* as b', 'a.b', '*', 'a := 1', 'yield', 'yield a', 'lambda', 'lambda: 1',
               'except: pass', 'except: pass\nexcept: pass', 'except: pass\nelse: pass', 'except: pass\nfinally: pass',
               'case 1: pass', 'case 1: pass\ncase 2: pass', 'case 1: pass\nx', 'case', '@a', '@a\n@b', '@a\nclass c: pass', 'a =', 'a = b', 'a = b =',
@@ -735,10 +739,48 @@ def _rand_text(rng, nl=True):
     return ''.join(rng.choice(alpha) for _ in range(rng.randint(0, 14)))
 
 
+def _set_guard(ctx):
+    """texts ending in a long run of blanks hang an unrepaired tree (C05-F7, uninterruptible regex): they are generated only
+    when the timing probe shows linear behaviour"""
+    slow = _timing_probe(ctx, report=False)
+    F.REDOS_GUARD = bool(slow)
+    ctx.notes['trailing_blank_runs_generated'] = not slow
+    return slow
+
+
 def correspondence(ctx):
     px = _px()
     rng = random.Random(ctx.rng.random())
     q = ctx.quick
+    _set_guard(ctx)
+    # (h) _has_trailing_comma / _has_trailing_semicolon vs the deterministic scan
+    cases, impl = [], []
+    triv = [' ', ' ', ')', '\n', '\t', ' # c\n', '#é,;\n', '\\\n', '\x0c', '\u00a0', '  ']
+    maxrun = 8 if F.REDOS_GUARD else 60
+    for _ in range(500 if q else 5000):
+        nl = rng.randint(1, 4)
+        lines = [''.join(rng.choice(['a', 'é', '"ü"', '(', 'b', ' ', '日']) for _ in range(rng.randint(1, 6))) for _ in range(nl)]
+        ln = rng.randint(1, nl)
+        col = rng.randint(0, len(lines[ln - 1]))
+        tail = ''.join(rng.choice(triv) for _ in range(rng.randint(0, maxrun)))
+        tail += rng.choice([',', ';', '', 'x', ',', ';', '#', '\\', ', b', '; c'])
+        pre = '\n'.join(lines[:ln - 1] + [lines[ln - 1][:col]])
+        src = pre + tail
+        if rng.random() < 0.3:
+            src += '\n' + ''.join(rng.choice(triv + ['x', ',']) for _ in range(rng.randint(0, 5)))
+        bcol = len(lines[ln - 1][:col].encode())
+        eln = ln if rng.random() < 0.95 else ln + rng.randint(1, 2)
+        if eln != ln:
+            bcol = 0        # (a byte column is only meaningful on its own line)
+        for fn, sep in ((px._has_trailing_comma, ','), (px._has_trailing_semicolon, ';')):
+            try:
+                r = bool(fn(src, eln, bcol))
+            except Exception as e:
+                r = 'exc:' + type(e).__name__
+            cases.append({'f': 'C05.trailing_sep', 'src': src, 'end_lineno': eln, 'end_col': bcol, 'sep': sep})
+            impl.append(r)
+    ctx.compare('_has_trailing_comma/_has_trailing_semicolon vs Pfst.TrailSep.hasTrailingSep', cases, impl,
+                nontrivial=lambda c, o: o is True or not c['src'].isascii())
     # (a) _astloc_from_src
     cases, impl = [], []
     for _ in range(400 if q else 4000):
@@ -997,6 +1039,7 @@ def _timing_probe(ctx, report=True):
 
 def sweep(ctx):
     _timing_probe(ctx)
+    _set_guard(ctx)
     if ctx.quick:
         _run_all(ctx, 70, 6, 2, 5, 150)
     else:
@@ -1005,6 +1048,7 @@ def sweep(ctx):
 
 def search(ctx):
     """A proof / extraction / correspondence obligation broke: evaluate the property itself on the implementation, wider."""
+    _set_guard(ctx)
     _run_all(ctx, 500, 60, 4, 8, 1500, 200, 100)
 
 
